@@ -2,7 +2,7 @@
 import copy
 import numpy as np
 from hypothesis import strategies as st
-from vlib import gen_model, simcase, build, canon
+from vlib import oracles, gen_model, simcase, build, canon
 from vlib.runner import Violation, Discard, HarnessError
 
 ID = "C10"
@@ -77,6 +77,8 @@ def check(case):
     cur_res, cur_ps, cur_offset = res, ps, 0
     labels = ["restarts:%d" % len(case["restart_at"]), "spreadsheet" if case["via_spreadsheet"] else "in-memory"]
     nontrivial = False
+    if not all(np.all(np.isfinite(np.asarray(c.vals, dtype=float))) for pop in cur_res.model.pops for c in pop.comps):
+        raise Discard("non-finite stocks in the run to be restarted (decided by C02)")
     chain_exact = True
     inconclusive = {}
     from atomica.model import TimedCompartment
@@ -108,6 +110,13 @@ def check(case):
             res2, _ = simcase.two_step(P2, ps2, b["progset"], b["instructions"], name="restart")
         except Exception as e:
             raise Violation(ID, "restart-failed/%s" % type(e).__name__, "restart at %r failed: %s at %s" % (Y, str(e)[:300], simcase.atomica_frame(e)))
+        try:
+            # the restarted run may itself be ill-posed where its parent is not (a plain junction with zero proportions receives 1e-77
+            # people in the restart and exactly 0 in the parent, because a stock that is exactly 0 in one run is 1e-70 in the other)
+            oracles.check_finite_inputs(res2)
+        except Discard as d_:
+            inconclusive["restarted run is outside the domain although its parent is not (%s): rounding of the state decides" % d_.reason] = 1
+            break
         t2 = np.asarray(res2.t, dtype=float)
         # each restart is compared with the tail of the run it was restarted from (the original for the first, the previous
         # restart for a restart of a restart), so rounding differences admitted at one stage do not accumulate along the chain
@@ -162,27 +171,36 @@ def check(case):
                 # control experiment: restart from the same saved state perturbed in the last bits.  If that run differs from the parent
                 # just as much, the model amplifies rounding (stiff feedback, x**0.25 of a cancellation residue...) and the mismatch is inconclusive
                 if control is None:
-                    ps_c = ps2.copy()
-                    newvals = {}
-                    for n_, (kk, vv) in enumerate(sorted(ps_c.initialization.values.items(), key=lambda kv: repr(kv[0]))):
-                        arr = np.atleast_1d(np.asarray(vv, dtype=float))
-                        eps = (((np.arange(arr.size) + n_) % 3) - 1) * 4.4e-16  # non-uniform, deterministic: -, 0, + in turn
-                        arr = arr * (1.0 + eps)
-                        newvals[kk] = float(arr[0]) if np.isscalar(vv) or np.ndim(vv) == 0 else arr
-                    ps_c.initialization.values = newvals
-                    try:
-                        res_c, _ = simcase.two_step(P2, ps_c, b["progset"], b["instructions"], name="control")
-                        control = canon.result_arrays(res_c)
-                    except Exception:
-                        control = {}
-                yc = control.get(k)
-                if yc is not None and yc.shape == x.shape:
-                    with np.errstate(invalid="ignore"):
-                        # the 4e-16 perturbation is amplified by more than 2500x in this very quantity => ill-conditioned
-                        badc = (np.abs(x - yc) > 1e-12 * np.maximum(np.abs(x), np.abs(yc))) & ~(np.isnan(x) & np.isnan(yc)) & bad
-                    if badc.any():
-                        inconclusive["restart differs beyond tolerance where a control restart from the same state perturbed by 4e-16 deviates by more than 1e-12 (model amplifies rounding)"] = 1
-                        continue
+                    # four deterministic perturbation patterns of the saved state in the last bits (-,0,+ in turn with three phases, and
+                    # every entry up): a discontinuity that one pattern happens not to cross is crossed by another
+                    control = []
+                    for phase in (0, 1, 2, None):
+                        ps_c = ps2.copy()
+                        newvals = {}
+                        for n_, (kk, vv) in enumerate(sorted(ps_c.initialization.values.items(), key=lambda kv: repr(kv[0]))):
+                            arr = np.atleast_1d(np.asarray(vv, dtype=float))
+                            eps = 4.4e-16 if phase is None else (((np.arange(arr.size) + n_ + phase) % 3) - 1) * 4.4e-16
+                            arr = arr * (1.0 + eps)
+                            newvals[kk] = float(arr[0]) if np.isscalar(vv) or np.ndim(vv) == 0 else arr
+                        ps_c.initialization.values = newvals
+                        try:
+                            res_c, _ = simcase.two_step(P2, ps_c, b["progset"], b["instructions"], name="control")
+                            control.append(canon.result_arrays(res_c))
+                        except Exception:
+                            pass
+                hit = False
+                for ctl in control:
+                    yc = ctl.get(k)
+                    if yc is not None and yc.shape == x.shape:
+                        with np.errstate(invalid="ignore"):
+                            # the 4e-16 perturbation is amplified by more than 2500x in this very quantity => ill-conditioned
+                            badc = (np.abs(x - yc) > 1e-12 * np.maximum(np.abs(x), np.abs(yc))) & ~(np.isnan(x) & np.isnan(yc)) & bad
+                        if badc.any():
+                            hit = True
+                            break
+                if hit:
+                    inconclusive["restart differs beyond tolerance where a control restart from the same state perturbed by 4e-16 deviates by more than 1e-12 (model amplifies rounding)"] = 1
+                    continue
             if bad.any():
                 i = int(np.argwhere(bad)[0][-1])
                 raise Violation(ID, "tail-mismatch/%s%s" % (k[0], "/spreadsheet" if case["via_spreadsheet"] else ""), "restart at index %d (Y=%r, %s comparison): %s at offset %r: original %r, restarted %r" % (iY, Y, mode, k, i, x[..., i].tolist(), y[..., i].tolist()))
